@@ -29,7 +29,7 @@ ASSUMPTIONS = ["differential: both sides are lcm solutions; the layout contract 
 BUDGET_S = {"quick": 1500, "thorough": 5400}
 BASE_DEVS = [
     {}, {"cc": "none", "wgrid": "disc"}, {"h": "hd", "filt": "none"},
-    {"e": 1}, {"cc": "none"}, {"cc": "cl"}, {"wgrid": "disc"}, {"k": "lin"}, {"k": "log"}, {"g": 1}, {"h": "two"}, {"h": "hg"}, {"filt": "states"}, {"filt": "two"}, {"filt": "grow"}, {"filt": "mix"}, {"cc": "cl"},
+    {"e": 1}, {"cc": "none"}, {"cc": "cl"}, {"wgrid": "disc"}, {"k": "lin"}, {"k": "log"}, {"g": 1}, {"h": "two"}, {"h": "hg"}, {"filt": "states"}, {"filt": "two"}, {"filt": "grow"}, {"filt": "mix"}, {"cc": "cl"}, {"filt": "se"}, {"h": "three"},
 ]
 CLASSES = ["state-perms", "choice-perms", "func-orders", "renamings", "true-constraint", "true-filter", "filter-as-constraint"]
 
